@@ -40,7 +40,10 @@ pub fn c13_events() {
         } else if ev == 1 {
             if let Some((mut a, arx)) = arbiter.take() { process_request("unwatch-all", &n.dbs, &mut a); a.left(&n.dbs); }
         } else if ev == 2 || ev == 3 {
-            let val = ["w", &i.to_string()].concat();
+            // a plain write may also carry exactly the value the key holds (a client writing the value back) while a conflict is pending
+            let same = ev == 2 && pending.len() > 0 && vsym::any_bool("writes-back-the-stored-value");
+            if same { vsym::cover("write.same-value-over-pending", true); }
+            let val = if same { peek(&n.dbs, "d", "k").unwrap().value } else { ["w", &i.to_string()].concat() };
             let line = if ev == 2 { ["set k ", &val].concat() } else { let ver = vsym::any_i32("ver"); vsym::assume(ver >= 0 && ver <= 3); ["set-safe k ", &ver.to_string(), " ", &val].concat() };
             let before = peek(&n.dbs, "d", "k").unwrap();
             let r = process_request(&line, &n.dbs, &mut w);
